@@ -49,10 +49,14 @@ class CancellableAction(Future):
             raise InvalidStateError('Action has already been ran')
 
         try:
-            with kiwipy.capture_exceptions(self):
+            try:
                 result = self._action(*args, **kwargs)
+            except Exception as exception:
+                # (the request can be withdrawn by user code that the action itself calls: its outcome is the cancellation)
                 if not self.cancelled():
-                    # (the request can be withdrawn by user code that the action itself calls)
+                    self.set_exception(exception)
+            else:
+                if not self.cancelled():
                     self.set_result(result)
         finally:
             self._action = None  # type: ignore
